@@ -69,11 +69,11 @@ fn lock_inner(s: &Sched) -> MutexGuard<'_, Inner> {
 impl Sched {
     fn wait_turn<'a>(&'a self, mut g: MutexGuard<'a, Inner>, me: usize) -> MutexGuard<'a, Inner> {
         while g.turn != me && !g.abort {
-            let (ng, to) = self.cv.wait_timeout(g, Duration::from_secs(20)).unwrap_or_else(std::sync::PoisonError::into_inner);
+            let (ng, to) = self.cv.wait_timeout(g, Duration::from_secs(60)).unwrap_or_else(std::sync::PoisonError::into_inner);
             g = ng;
             if to.timed_out() && g.turn != me && !g.abort {
                 g.abort = true;
-                g.violation.get_or_insert(Violation::new("harness_baton_timeout", "", "a simulated thread did not get the baton for 20 s".into()));
+                g.violation.get_or_insert(Violation::new("harness_baton_timeout", "", "a simulated thread did not get the baton for 60 s".into()));
                 self.cv.notify_all();
             }
         }
